@@ -41,3 +41,5 @@ pub fn consts() -> Consts {
 pub mod transport;
 /// Hooks for the codec engines (wire messages, onion failure packets).
 pub mod codec;
+/// Hooks for the onion engine (failure-packet construction / attribution helpers).
+pub mod onion;
